@@ -305,6 +305,22 @@ def run(ctx, tier):
                                     (_is_new_parent(sides[1]) and _is_candidate(sides[0]))
                         if parentish:
                             allowed.add((sb_, f_t if is_ne else t_t))   # it is the parent: skip
+                # `let worthwhile = cheaper && self.check_motion(..); if worthwhile { re-parent }`: the flag is false either because the
+                # literal was stored (that path took the failing edge of `cheaper`, judged above) or because the motion check, the
+                # flag's computed part, said no: the way from that call into the flag test is a "motion invalid" skip
+                motion_sites = {(m['fn'].path, m['block']) for m in P.motion_calls(ctx, p) if m['fn'] is fn}
+                for sb_ in L['body']:
+                    if fn.blocks[sb_]['term']['k'] != 'switch':
+                        continue
+                    fi_ = fn.flag_info(sb_)
+                    if fi_ is None or fi_[0] != 'false':
+                        continue
+                    si_ = fn.switch_info(sb_)
+                    comp_ = [n for n in (si_[0] if si_ else ()) if not (n[0] == 'const' and n[1] in ('true', 'false'))]
+                    if len(comp_) == 1 and comp_[0][0] == 'call' and comp_[0][3] in motion_sites and comp_[0][3][1] == fi_[1]:
+                        tgt_ = fn.blocks[fi_[1]]['term'].get('target')
+                        if tgt_ is not None:
+                            allowed.add((fi_[1], tgt_))
                 outside = frozenset(x for x in range(fn.nb) if x not in L['body'])
                 rr = fn.reachable(L['header'], removed=frozenset(allowed), stop=outside | frozenset([blk]))
                 skipped = any(src_ in rr and src_ != blk for (src_, _d) in L['back_edges'])
